@@ -5,7 +5,7 @@ import vlib
 FINISH = dict(level="fault_enumeration",
               rule="every allocation request index k of every workload variant (parse one-shot/chunked of 6 documents, "
                    "json_tokener_parse, 10 constructors, object add with table growth / replace / constant key, array "
-                   "add/put/insert with growth, set_string growth, deep copy, 13 serializations, pointer set/get incl. "
+                   "add/put/insert with growth, set_string growth of an inline string and re-growth / shrink / equal-length set of an already grown one, deep copy, 13 serializations, pointer set/get incl. "
                    "printf variants, a 6-operation patch and each operation alone) is failed in turn (thorough: plus a "
                    "random second failure); a case is non-trivial when the failing request was reached; distinct = "
                    "distinct (workload, variant, k, k2); TLC validates each event against the Faults overlay; the "
